@@ -614,6 +614,7 @@ def rule_if_varmap(cx, rep, port):
         if out & set(NAME_PARSERS):
             out |= {'<names>'}
         return out
+    orders = {}
     for c in roles.iterators(p):
         ms = roles.methods(c)
         if 'get_variables_map' not in ms or c.name == 'RBQLInputIterator':
@@ -658,6 +659,17 @@ def rule_if_varmap(cx, rep, port):
         for q in ps:
             if q.kind != 'return':
                 continue
+            # order in which the bare column names and the positional variables are written into the same map (the later one wins
+            # for a column that is itself called a1, a2, ...)
+            seq = []
+            for c_ in q.calls:
+                eff = called([c_])
+                if 'map_variables_directly' in eff:
+                    seq.append('names')
+                if eff & set(POS_PARSERS):
+                    seq.append('pos')
+            if 'names' in seq and 'pos' in seq:
+                orders.setdefault('names last' if max(i for i, x in enumerate(seq) if x == 'names') > max(i for i, x in enumerate(seq) if x == 'pos') else 'positional last', []).append((key, q.node if q.node is not None else fd))
             did = called(list(q.calls) + [v for _, v in q.stores] + list(q.env.values()) + ([q.value] if q.value is not None else []))
             if not set(POS_PARSERS) <= did:
                 ok_pos = False
@@ -680,6 +692,15 @@ def rule_if_varmap(cx, rep, port):
             rep.violated(key + ' names', bad[0].node, 'with column names present the name-based variables (a.name, a["name"]) are still skipped when `{}`: the query then binds differently (or fails to parse) through this front end only'.format(' / '.join(bad[1]) or 'always'))
         else:
             rep.holds(key + ' names', fd, 'name-based variables are registered whenever {} is present, whatever else holds'.format(' / '.join(sorted(sources - {'self.has_header'})) or 'the header'))
+    if len(orders) == 2:
+        # siblings disagree: the same query over a column literally named a1 binds to different columns through different front ends
+        # a tie is resolved by the convention of the tree this rule was written against: the column name wins (names written last)
+        ranked = sorted(orders.items(), key=lambda kv: (len({k for k, _ in kv[1]}), kv[0] == 'names last'))
+        minority, majority = ranked[0][1], ranked[-1][1]
+        for k_, node_ in minority[:1]:
+            rep.violated(k_ + ' collision order', node_, 'bare column names and positional variables are written into the variable map in the opposite order to {}: for a column that is itself called a1, a2, ... the same query selects a different column through this front end'.format(sorted({k for k, _ in majority})[0]))
+    elif orders:
+        rep.holds('collision order', (p.files[cx.engine_mod(port)], 0), 'every iterator writes bare column names and positional variables in the same order ({})'.format(list(orders)[0]))
     rep.require_count('iterators with name-based variables', n, 4 if port == 'py' else 2, (p.files[cx.engine_mod(port)], 0))
 
 
